@@ -59,7 +59,7 @@ def cases(tier, seed):
 def variant_names():
     return ["base", "flx_shape", "flx_values", "z", "u", "v", "Kx", "Ky", "Kz", "domain", "levels_scalar", "levels_list", "levels_reordered",
             "modes", "meas_pt", "bg", "analytic", "halo_none", "halo_resolved", "halo_zero", "halo_other", "halo_same_pads", "halo_other_py", "halo_other_px", "precision", "dispersion",
-            "const_numeric", "const_analytic", "levels_long_a", "levels_long_b"]
+            "const_numeric", "const_analytic", "levels_long_a", "levels_long_b", "modes_over_x", "modes_clamped_x", "profiles_swapped"]
 
 
 def build(name):
@@ -105,6 +105,12 @@ def build(name):
         r["levels"] = [6, 3]
     elif name == "modes":
         r["modes"] = (8, 6)
+    elif name == "modes_over_x":       # padded grid 16 x 14: more modes than it holds along x only (the solver then keeps every mode)
+        r["modes"] = (512, 10)
+    elif name == "modes_clamped_x":    # every mode along x, ten along y: NOT the same request as modes_over_x
+        r["modes"] = (16, 10)
+    elif name == "profiles_swapped":   # the same five arrays in another assignment: (v, u, Ky, Kx, Kz)
+        r["profiles"] = [r["profiles"][1], r["profiles"][0], r["profiles"][3] * 1.0, r["profiles"][2] * 1.0, r["profiles"][4]]
     elif name == "meas_pt":
         r["meas_pt"] = (60.0, 40.0)
     elif name == "bg":
